@@ -34,7 +34,7 @@ def depth(tier):
 
 
 def bound(tier):
-    return dict(depth=depth(tier), core_alphabet_depth=depth(tier) + 1, models=2, files=2, metadata_objects=["None", "{}", "{'a':1}", "{'nested':{'x':[1,2.5,'s']}}", "{'t':tensor}"][:3 if tier == "quick" else 5],
+    return dict(depth=depth(tier), core_alphabet_depth=depth(tier) + 1, models=2, files=2, metadata_objects=["None", "{}", "{'a':1,'n':{'log':view,'l':[view]}} (views of a larger buffer)", "{'nested':{'x':[1,2.5,'s']}}", "{'t':tensor}"][:3 if tier == "quick" else 5],
                 shapes=KINDS, operations="randomise(m), train(m0), add_unitary(m0), save(m,f,md), load(m,f), autoload(f), save with reserved key, ModelSaver.on_epoch_end")
 
 
@@ -103,6 +103,19 @@ def canon(x):
     return ("V", repr(x))
 
 
+def ident(x):
+    """Identity fingerprint of a metadata object: which container / tensor OBJECTS it is made of and which
+    memory the tensors view.  'Saving does not change the metadata object' includes not swapping a nested
+    live view for a frozen copy (the values are equal at that moment, the caller's later updates are lost)."""
+    if isinstance(x, torch.Tensor):
+        return ("T", id(x), x.data_ptr(), tuple(x.shape), tuple(x.stride()), x.untyped_storage().nbytes())
+    if isinstance(x, dict):
+        return ("D", id(x), tuple((str(k), ident(v)) for k, v in x.items()))
+    if isinstance(x, (list, tuple)):
+        return ("L", id(x), tuple(ident(v) for v in x))
+    return ("V", repr(x))
+
+
 def has_ud(m):
     return "unitary_dict" in m.__dict__
 
@@ -128,7 +141,9 @@ def abs_file(path, networks):
 
 
 def MDS():
-    return [None, {}, {"a": 1}, {"nested": {"x": [1, 2.5, "s"]}}, {"t": torch.arange(3)}]
+    # object 2 carries, besides a plain value, live VIEWS of a larger running-log buffer inside nested containers
+    buf = torch.arange(6, dtype=torch.double)
+    return [None, {}, {"a": 1, "n": {"log": buf[:2], "l": [buf[1:4]]}}, {"nested": {"x": [1, 2.5, "s"]}}, {"t": torch.arange(3)}]
 
 
 def mk(kind, arch, custom=False):
@@ -163,6 +178,7 @@ class World:
         self.refM = [abs_model(m) for m in self.M]
         self.refF = [None, None]
         self.refMD = [canon(x) for x in self.mds]
+        self.idMD = [ident(x) for x in self.mds]
         self.used_md = set()
         self.networks = self.M[0].networks
 
@@ -184,6 +200,8 @@ class World:
         for i, x in enumerate(self.mds):
             if canon(x) != self.refMD[i]:
                 probs.append(f"metadata{i}")
+            elif ident(x) != self.idMD[i]:
+                probs.append(f"metadata{i}-object-identity")
         return probs
 
     def apply(self, op, check):
